@@ -5,7 +5,7 @@ import ast
 
 from ..model import ENFA, NFA, DFA, FABASE, BOX, RSA
 from .common import site_of
-from .flow import (Oblig, calls, events, receivers, START, FINAL, STATES, SYMBOLS, DELTA_SYM, DELTA_EPS, SELF, P,
+from .flow import (innermost_loop, block_atoms, assignments, executed_calls, Oblig, calls, events, receivers, START, FINAL, STATES, SYMBOLS, DELTA_SYM, DELTA_EPS, SELF, P,
                    result_locs, deps_of, arg_deps)
 
 EXPLANATION = (
@@ -142,22 +142,47 @@ def hopcroft_pending_rule(eng, ob, oblig):
     # Hopcroft with a pending-splitter list: when the class that was split is itself still pending, the new half must
     # be queued as well (otherwise it is never used as a splitter).  An implementation that always queues both halves
     # has no such test and holds trivially.
-    src = ast.unparse(fi.node)
     inserts = [ev for ev, _ in calls(summ, "insert", own=True)]
     contains = [ev for ev, _ in calls(summ, "contains", own=True)]
-    chooses_smaller = any(isinstance(c, ast.Compare) and "len(" in ast.unparse(c) and "part" in ast.unparse(c)
-                          for c in ast.walk(fi.node) if isinstance(c, ast.Compare) and len(c.ops) == 1
-                          and isinstance(c.ops[0], (ast.Lt, ast.Gt, ast.LtE, ast.GtE)) and "partition" in ast.unparse(c))
-    if chooses_smaller or contains:
-        under = [ev for ev in inserts if any(".contains(" in f[0] and f[1] for f in ev.facts)]
-        ob.decide("R1", oblig, fi, "pending-class-queues-new-half", bool(contains) and bool(under),
-                  "when the split class is pending in the splitter list the new half is queued too",
-                  "after a split only one half is queued even when the split class is still pending: the other half is "
-                  "never used as a splitter and distinguishable states stay merged", summ, site=site_of(prog, fi, fi.node))
-    else:
+    site = site_of(prog, fi, fi.node)
+    if not contains:
         ob.decide("R1", oblig, fi, "pending-class-queues-new-half", bool(inserts),
-                  "both halves of a split are queued (no smaller-half optimisation)", "no splitter is ever queued", summ,
-                  site=site_of(prog, fi, fi.node))
+                  "both halves of a split are queued (no pending test, no smaller-half optimisation)",
+                  "no splitter is ever queued", summ, site=site)
+        return
+    # Evaluate the boolean skeleton of the loop body that holds the pending test: for every valuation of its atomic
+    # conditions in which `contains(<split class>, symbol)` is true, an insert of the *other* half must execute; for
+    # every valuation at all, some insert must execute.
+    ok, why = True, ""
+    n_models = 0
+    for cev in contains:
+        fn = cev.func.node
+        lp = innermost_loop(fn, cev.node)
+        if lp is None:
+            ob.rep.error("R1", oblig, fi.qname, "pending-class-queues-new-half",
+                         "the pending test is not inside the loop over the symbols; the rule cannot follow it", site=site)
+            return
+        atoms = block_atoms(lp.body)
+        key = ast.dump(cev.node)
+        models = assignments(atoms)
+        if key not in atoms or models is None:
+            ob.rep.error("R1", oblig, fi.qname, "pending-class-queues-new-half",
+                         "the pending test is not used as a branch condition of the loop body; the rule cannot follow it",
+                         site=site_of(prog, fi, cev.node))
+            return
+        old_half = ast.unparse(cev.node.args[0]) if cev.node.args else None
+        ins_nodes = {id(ev.node): ev for ev in inserts}
+        for asg in models:
+            done = [n for n in executed_calls(lp.body, asg) if id(n) in ins_nodes]
+            n_models += 1
+            if not done:
+                ok, why = False, "on some path through the loop body no half of the split is queued"
+            elif asg[key] and not any(n.args and ast.unparse(n.args[0]) != old_half for n in done):
+                ok, why = False, ("when the split class %s is still pending only %s itself is queued again: the new half is "
+                                  "never used as a splitter and distinguishable states stay merged" % (old_half, old_half))
+    ob.decide("R1", oblig, fi, "pending-class-queues-new-half", ok,
+              "when the split class is pending in the splitter list the new half is queued too, and some half is queued on "
+              "every path (%d valuations of the branch conditions)" % n_models, why, summ, site=site)
 
 
 def _closure_ctrl(summ):
